@@ -437,7 +437,17 @@ def run_case(spec0):
     rng = np.random.default_rng([int(spec0['seed']), 12])
     spec = gen_spec(spec0['seed'], 'quick')
     os.makedirs(common.WORK, exist_ok=True)
-    root = tempfile.mkdtemp(dir=common.WORK, prefix="c11_")
+    top = tempfile.mkdtemp(dir=common.WORK, prefix="c11_")
+    root = top
+    if spec0['seed'] % 3 == 0:
+        # where the data lives (and what the simulation is called) is no part of
+        # the layout: names from the reader's own vocabulary
+        HOST = ['my.file_sims', 'checkpoint.chkpt', 'run.it_8.h5', 'output-0003', 'all_iterations',
+                'rl=1 c=2', 'with space', 'bracket[0]', 'restart_run']
+        root = os.path.join(top, HOST[(spec0['seed'] // 3) % len(HOST)])
+        os.makedirs(root)
+        if (spec0['seed'] // 3) % 2:
+            spec['simname'] = HOST[(spec0['seed'] // 5) % len(HOST)].replace('/', '_')
     try:
         param = etgen.make_sim(root, spec)
         check_join(res, A, spec, rng)
@@ -473,5 +483,5 @@ def run_case(spec0):
                                          {"err": repr(e)[:200]})
         check_truncated(res, A, param, spec, rng)
     finally:
-        shutil.rmtree(root, ignore_errors=True)
+        shutil.rmtree(top, ignore_errors=True)
     return res
